@@ -327,7 +327,7 @@ def gen_doc(rng: random.Random, phrases: List[List[str]]) -> Tuple[str, Dict[str
         tags.append("ending:none")
     elif kind == "nearmiss":
         end = rng.choice([" 4", " x4", " for four", " for 4 people", " for4", "for 4", " serves: 4", " for 4.", " to 4",
-                          " make 4", " to makes 4", " for -4", " for 4 5", " for \u0664", " forr 4", " 4 for"])
+                          " make 4", " to mak 4", " for -4", " for 4 5", " for \u0664", " forr 4", " 4 for"])
         inline = src + end
         spec.update(title=plain + end)
         if re.search(r"(^|\s)(to|serve|serves|make|makes|for|serving)$", plain, re.I):
